@@ -379,9 +379,13 @@ def execute(run, props):
     by = None
     by_snap = None
     if run["config"].get("bystander") is not None:
-        by = libmod.Library(blocks=[world.pool[i % len(world.pool)] for i in run["config"]["bystander"]])
-        by_snap = (snapshot(by), [id(b) for b in by.blocks])
-        res.probes["bystander_library"] += 1
+        idx = list(dict.fromkeys(i % len(world.pool) for i in run["config"]["bystander"]))   # distinct objects only
+        try:
+            by = libmod.Library(blocks=[world.pool[i] for i in idx])
+            by_snap = (snapshot(by), [id(b) for b in by.blocks])
+            res.probes["bystander_library"] += 1
+        except Exception:
+            by = None        # a library may refuse these blocks; then there is simply no bystander in this run
 
     def ensure_lib():
         nonlocal lib
